@@ -232,3 +232,6 @@ Definition o_presets : out :=
 (** raw access for monitors: the flat profile *)
 Definition o_flat (p : option prof) : out :=
   match p with Some p => o_ok [ofl (fst p); ofl (snd p)] | None => o_skip end.
+
+Definition o_categorical (probs : list float) (us : list float) : out :=
+  o_ok [OL (map (fun u => onat (@categorical FNum probs u)) us)].
